@@ -24,6 +24,7 @@ EXPLANATION = (
     "interpreter); sites the classifier cannot decide are listed in a frozen table "
     "with a reason each, and a new undecidable site is an analysis error naming it. "
     "Determinism of third-party partitioners given their seed is not decided."
+    'Round 7: (HASHORD) ranking functions over tables keyed by sets of labels do not materialise the key in iteration order. '
 )
 ASSUMPTIONS = (
     "integers and tuples/frozensets of integers hash deterministically; only str labels are "
